@@ -51,7 +51,7 @@ class StubModel:
 
 
 def make_table(R, C):
-    t = object.__new__(Table)
+    t = Table.__new__(Table)
     t._model = StubModel()
     t._table_id = 7
     t.num_rows = R
@@ -205,7 +205,7 @@ def h11d_a1(letters, digits, d1, d2, R, C, lower=False):
     if lower:
         # a lower-case spelling is either refused (IndexError, nothing changes) or names the same position
         s = s.lower()
-        t = object.__new__(CountingTable)
+        t = CountingTable.__new__(CountingTable)
         t.num_rows = R
         t.num_cols = C
         try:
@@ -219,7 +219,7 @@ def h11d_a1(letters, digits, d1, d2, R, C, lower=False):
     r, c = xl_cell_to_rowcol(s)
     assert r == want_r
     assert c == want_c
-    t = object.__new__(CountingTable)
+    t = CountingTable.__new__(CountingTable)
     t.num_rows = R
     t.num_cols = C
     try:
@@ -232,6 +232,31 @@ def h11d_a1(letters, digits, d1, d2, R, C, lower=False):
     assert got == (want_r, want_c, "v")
     assert t.num_rows == (want_r + 1 if want_r + 1 > R else R)
     assert t.num_cols == (want_c + 1 if want_c + 1 > C else C)
+
+
+def h11e_history(row, col, ndel, abs_form):
+    """write by A1 reference (the table grows), delete rows so that the position is outside the table again, write by the
+    SAME reference again: the second write grows the table to exactly the needed size and lands at [row][col], exactly as
+    the row/column form does"""
+    R, C = 2, 2
+    assume(0 <= row <= R + 2 and 0 <= col <= C + 1)
+    t = make_table(R, C)
+    ref = xl_rowcol_to_cell(row, col, abs_form, abs_form)
+    t.write(ref, "first")
+    assert t.num_rows == (row + 1 if row + 1 > R else R) and t.num_cols == (col + 1 if col + 1 > C else C)
+    rows_now = t.num_rows
+    assume(1 <= ndel <= rows_now - 1)
+    t.delete_row(num_rows=ndel, start_row=rows_now - ndel)          # the last ndel rows go
+    assert t.num_rows == rows_now - ndel and len(t._data) == t.num_rows
+    cols_now = t.num_cols
+    t.write(ref, "second")
+    want_rows = row + 1 if row + 1 > rows_now - ndel else rows_now - ndel
+    assert t.num_rows == want_rows and t.num_cols == cols_now
+    assert len(t._data) == t.num_rows
+    for r in t._data:
+        assert len(r) == t.num_cols
+    assert t._data[row][col].value == "second"
+    assert t.cell(row, col) is t._data[row][col] and t.cell(ref) is t._data[row][col]
 
 
 SHAPES = [1, 2, 3]
@@ -251,6 +276,11 @@ HARNESSES = [
                    "limits (1 000 000 rows, 1000 columns); shapes {1,2} x {1,2}; row/col and A1 ('A0' included) forms",
             outside=["growth by more than 3 rows/columns inside the limits (loops are unrolled concretely)",
                      "set_cell_formatting / set_cell_border position handling beyond _validate_cell_coords"]),
+    Harness("H11e", h11e_history, dict(row=IntDom(), col=IntDom(), ndel=IntDom(), abs_form=BoolDom()),
+            bounds="2x2 table; A1 position in rows 0..4, columns 0..3 (symbolic); 1..rows-1 trailing rows deleted in between "
+                   "(symbolic); plain and '$' spelling",
+            stubs=["Table over a grid of real empty cells; model stub"],
+            outside=["column deletion in between", "the other position-taking methods (they share _validate_cell_coords)"]),
     Harness("H11c", h11c_iter,
             lambda tier: dict(R=Cases([1, 3] if tier == "quick" else [1, 2, 3, 4]), C=Cases([2] if tier == "quick" else [1, 2, 3]), mn_r=IntDom(), mx_r=IntDom(), mn_c=IntDom(), mx_c=IntDom(),
                  d_mn_r=BoolDom(), d_mx_r=BoolDom(), d_mn_c=BoolDom(), d_mx_c=BoolDom(), by_cols=Cases([False, True])),
